@@ -18,8 +18,9 @@ vf::Shape shape() {
   sh.ints.push_back({-3, D + 3});                       // generator index selector
   for (int i = 0; i < 3 * D; ++i) { sh.ints.push_back({-1000000, 1000000}); sh.ints.push_back({0, 40}); }
   sh.ints.push_back({-50, 50}); sh.ints.push_back({1, 9});   // scalar alpha = num/den
+  sh.ints.push_back({-2147483647LL - 1, 2147483647LL});       // arbitrary 32-bit index (used when the selector is D+2)
 #else
-  sh.ints = {{-3, D + 3}};
+  sh.ints = {{-3, D + 3}, {-2147483647LL - 1, 2147483647LL}};
   sh.n_tangents = 3;
   sh.tp = TP_FULL;
   sh.scalars = {SK_SIGNED_MAG};
@@ -28,11 +29,11 @@ vf::Shape shape() {
   return sh;
 }
 
-static int gen_index(int64_t sel) {
+static int gen_index(int64_t sel, int64_t any) {
   if (sel == -3) return std::numeric_limits<int>::min();
   if (sel == -2) return -1000;
   if (sel == -1) return -1;
-  if (sel == D + 2) return 12345;
+  if (sel == D + 2) return (int)any;
   if (sel == D + 3) return std::numeric_limits<int>::max();
   return (int)sel;   // 0..D-1 valid, D and D+1 just out of range
 }
@@ -101,7 +102,7 @@ vf::Outcome run_case(const vf::Case& c, const vf::RunCtx& ctx) {
 
   // ---- generators: documented basis for 0 <= i < DoF, invalid_argument otherwise
   {
-    const int gi = gen_index(c.ints[0]);
+    const int gi = gen_index(c.ints[0], c.ints.back());
     bool threw_ia = false, threw_other = false;
     Alg G;
     try { G = TangentT::Generator(gi); }
